@@ -58,6 +58,20 @@ BAD = {
 }
 
 
+# other valid lexical forms of the checked simple types (XSD part 2): each must be accepted as well
+GOOD_ALT = {
+    'dateTime': ['2031-03-04T05:06:07.1Z', '2031-03-04T05:06:07.123456Z', '2031-03-04T05:06:07.1444737Z', '2031-03-04T05:06:07.123456789012Z',
+                 '2031-03-04T05:06:07'],
+    'boolean': ['false', '1', '0'],
+    'integer': ['0', '-7', '12345678901234567890'],
+    'nonNegativeInteger': ['0', '12345678901234567890'],
+    'positiveInteger': ['12345678901234567890'],
+    'PositiveInteger': ['12345678901234567890'],
+    'unsignedShort': ['0', '65535'],
+    'duration': ['P1Y2M3DT4H5M6S', 'PT0S', 'P1D', '-P1D', 'PT1.5S'],
+}
+
+
 def local_type(typ):
     if not isinstance(typ, str):
         return None
